@@ -94,6 +94,39 @@ def func_control():
     return json.loads(line[-1][5:])
 
 
+def _host_func_values(L, session, name, db):
+    """Execute the host's own `select(func.<name>(column))` and give (got, expected)."""
+    sa, sm = L.sa, L.sm
+    A, P = sm.Author, sm.Post
+    names = [r["name"] for r in db["Author"]]
+    ratings = [r["rating"] for r in db["Post"]]
+    spec = {
+        "lower": (sa.func.lower(A.name), [n.lower() for n in names]),
+        "upper": (sa.func.upper(A.name), [n.upper() for n in names]),
+        "ltrim": (sa.func.ltrim(A.name), [n.lstrip(" ") for n in names]),
+        "rtrim": (sa.func.rtrim(A.name), [n.rstrip(" ") for n in names]),
+        "substr": (sa.func.substr(A.name, 1, 2), [n[:2] for n in names]),
+        "char_length": (sa.func.char_length(A.name), [len(n) for n in names]),
+        "round": (sa.func.round(P.rating), [float(x) for x in ratings]),
+        "floor": (sa.func.floor(P.rating), [float(x) for x in ratings]),
+        "ceil": (sa.func.ceil(P.rating), [float(x) for x in ratings]),
+        "max": (sa.func.max(P.rating), [max(ratings)] if ratings else [None]),
+        "count": (sa.func.count(P.id), [len(ratings)]),
+        "coalesce": (sa.func.coalesce(P.author_id, -1),
+                     [r["author_id"] if r["author_id"] is not None else -1 for r in db["Post"]]),
+    }.get(name)
+    if spec is None:
+        return None
+    expr, want = spec
+    try:
+        got = [r[0] for r in session.execute(sa.select(expr)).all()]
+        if name in ("round", "floor", "ceil"):
+            got = [float(x) for x in got]
+    except Exception as e:
+        return (["ERR " + type(e).__name__ + ": " + str(e)[:200]], sorted(want, key=repr))
+    return (sorted(got, key=repr), sorted(want, key=repr))
+
+
 # --------------------------------------------------------------------------- pristine oracle
 def pristine_handler(req):
     """Runs in a pristine forked grandchild: build the chain, return its snapshot."""
@@ -132,7 +165,8 @@ PROBES = [
     "style_sa_select_aliased", "style_sa_core_cols", "join_form_joinedload", "join_form_core_join",
     "join_form_aliased_rel", "apply_navigates_other_rel_to_aliased_target", "op_distinct",
     "op_only", "style_dj_manager", "style_dj_custom_manager", "style_dj_related_manager", "join_form_rel", "join_form_outer_rel", "join_form_target_on",
-    "join_form_target", "join_form_select_related", "host_func_used", "gc_between_ops",
+    "join_form_target", "join_form_select_related", "host_func_used", "host_func_executed",
+    "gc_between_ops",
     "chain_depth_ge_3",
 ]
 FAULTS = ["apply_fail_raised", "cache_eviction", "gc_pass", "cache_disabled_run",
@@ -245,6 +279,15 @@ def execute(plan, pristine, deep=False):
                 if got != want:
                     viol("host-func-changed", op, name=op["name"], expected=want, got=got,
                          style="registry")
+                # ... and what the host's own statement using that function returns, on the
+                # same engine (and compiled-statement cache) the shorthand results run on
+                hv = _host_func_values(L, session, op["name"], db)
+                if hv is not None:
+                    probes["host_func_executed"] += 1
+                    gotv, wantv = hv
+                    if gotv != wantv:
+                        viol("host-func-wrong-values", op, name=op["name"], expected=wantv,
+                             got=gotv, style="registry")
                 continue
             base = pool.get(op["base"])
             if base is None or base.qid in tainted:
@@ -765,12 +808,12 @@ def gen_plan(seed, run, finding_shapes=True):
                     bad["text"] = bad["text"].replace("@NAV@", "%s/%s ge 0" % (rel, f)) \
                                              .replace("@REL@", rel)
             ops.append({"i": nid(), "op": "apply_fail", "base": g.i, "bad": bad})
-        elif r < 0.95:
+        elif r < 0.94:
             # run: bias towards older queries that later applies were chained on
             cands = [x for x in gs if x.applied] or gs
             q = rng.choice(gs if rng.random() < 0.4 else cands)
             ops.append({"i": nid(), "op": "run", "base": q.i})
-        elif r < 0.98:
+        elif r < 0.985:
             ops.append({"i": nid(), "op": "host_func", "name": rng.choice(FUNC_NAMES)})
         else:
             ops.append({"i": nid(), "op": "gc"})
@@ -1280,9 +1323,11 @@ def _sys_history(style, root, shape, fkind):
     elif shape == "chained":
         f = {"Post": "rating", "Comment": "post_id", "Author": "id"}[root]
         base = add({"op": "apply", "base": base, "t": {"k": "cmp", "f": f, "op": "le", "v": 5}})
+    add({"op": "host_func", "name": "substr" if fkind == "fn" else "lower"})
     r1 = add({"op": "apply", "base": base, "t": t})
     add({"op": "run", "base": base})
     add({"op": "run", "base": r1})
+    add({"op": "host_func", "name": "substr" if fkind == "fn" else "round"})
     add({"op": "apply_fail", "base": base, "bad": dict(BAD_FILTERS[4])})
     r2 = add({"op": "apply", "base": base, "t": t2})
     r3 = add({"op": "apply", "base": r1, "t": t2})
